@@ -74,6 +74,11 @@ type Prop struct {
 	// (nil = string equality).  For lines whose real outcome is legitimately non-deterministic the
 	// twin answers with the set of outcomes and Match checks membership.
 	Match func(line, realOut, twinOut string) bool
+	// Agree is an older name of Match (same meaning); used when Match is nil.
+	Agree func(line, real, twin string) bool
+	// OutcomeTags adds tags derived from the real answers of a case to the printed distribution
+	// (which branches / error kinds were actually hit); may be nil.
+	OutcomeTags func(c Case, realOut []string) []string
 	// Reset, when non-empty, is sent to the twin before every case (answer ignored): stateful twins
 	// must not carry state into a case whose own init line was shrunk away.
 	Reset string
@@ -211,6 +216,8 @@ func runCase(p *Prop, o *oracle.O, c Case) outcome {
 			same := to == ro
 			if !same && p.Match != nil && !strings.HasPrefix(to, "oracle-error") {
 				same = p.Match(ln, ro, to)
+			} else if !same && p.Agree != nil && !strings.HasPrefix(to, "oracle-error") {
+				same = p.Agree(ln, ro, to)
 			}
 			if !same && out.disLine < 0 {
 				out.disLine = i
@@ -463,6 +470,11 @@ func Run(p *Prop, opts Opts) (*Result, error) {
 		}
 		for _, t := range oc.c.Tags {
 			res.Distribution[t]++
+		}
+		if p.OutcomeTags != nil {
+			for _, t := range p.OutcomeTags(oc.c, oc.real) {
+				res.Distribution[t]++
+			}
 		}
 		if len(res.Samples) < 6 && (oc.c.Nontrivial || len(res.Samples) < 2) {
 			res.Samples = append(res.Samples, oc.c)
